@@ -1,7 +1,7 @@
 #!/bin/bash
 # usage: try_seed.sh <patch.diff> <PROP> [<PROP>...]   -- applies a seeded change to /repo, runs the quick checks, undoes it
 set -u
-patch=$1; shift
+patch=$(realpath "$1"); shift
 cd /repo || exit 2
 if ! git diff --quiet; then echo "/repo has local changes; refusing"; exit 2; fi
 git apply "$patch" || { echo "patch does not apply"; exit 2; }
